@@ -332,6 +332,11 @@ bool Terminal::Impl::executeRunHistoryCmd(SessionContext *s, const Args &args)
 {
     string sub_cmd = args[0].substr(1);
     if (sub_cmd == "!") {
+        //! 历史为空时 history.back() 是未定义行为
+        if (s->history.empty()) {
+            s->wp_conn->send(s->token, "Error: index out of range.\r\n");
+            return false;
+        }
         s->curr_input = s->history.back();
         return execute(s);
     }
@@ -358,6 +363,9 @@ bool Terminal::Impl::executeRunHistoryCmd(SessionContext *s, const Args &args)
             s->wp_conn->send(s->token, "Error: index out of range.\r\n");
     } catch (const invalid_argument &e) {
         s->wp_conn->send(s->token, "Error: parse index fail.\r\n");
+    } catch (const out_of_range &e) {
+        //! std::stoi() 对超出 int 范围的数字抛 out_of_range
+        s->wp_conn->send(s->token, "Error: index out of range.\r\n");
     }
 
     return false;
